@@ -196,6 +196,22 @@ fn is_str(b: &[u8]) -> bool {
     unsafe { diplomat_is_str(b.as_ptr(), b.len()) }
 }
 
+/// the same bytes viewed at every offset 0..16 from a 16-aligned address (a sub-view of a larger buffer, as a
+/// std::string_view::substr is), between non-ASCII neighbours: the answers, which must all be the same
+fn is_str_at_offsets(b: &[u8]) -> Vec<bool> {
+    let mut arena = vec![0xC3u8; b.len() + 64];
+    let base = arena.as_ptr().align_offset(16);
+    (0..16)
+        .map(|k| {
+            for x in arena.iter_mut() {
+                *x = 0xC3;
+            }
+            arena[base + 16 + k..base + 16 + k + b.len()].copy_from_slice(b);
+            unsafe { diplomat_is_str(arena.as_ptr().add(base + 16 + k), b.len()) }
+        })
+        .collect()
+}
+
 pub fn run(input: &str) {
     let mut out = String::new();
     for line in input.lines().filter(|l| !l.trim().is_empty()) {
@@ -204,7 +220,10 @@ pub fn run(input: &str) {
         let r = match kind {
             "utf8" => {
                 let b: Vec<u8> = case["bytes"].as_array().unwrap().iter().map(|x| x.as_u64().unwrap() as u8).collect();
-                json!({"valid": is_str(&b)})
+                let at = is_str_at_offsets(&b);
+                let v = is_str(&b);
+                let differing: Vec<usize> = at.iter().enumerate().filter(|(_, x)| **x != v).map(|(i, _)| i).collect();
+                json!({"valid": v, "differing_offsets": differing})
             }
             "utf8_null" => {
                 // a NULL pointer with length 0 is how C and C++ (std::string_view()) spell the empty string
